@@ -90,7 +90,7 @@ class ConsistentImpliesReadable(WorkerBase):
         ctx.oblige("recorded-fab-names-the-box-range", g["match"](OFF(b), b), "P")
 
 
-def tasks(tier):
+def _tasks0(tier):
     out = [ConsistentImpliesReadable(2), ConsistentImpliesReadable(3)]
     out += worker_tasks("C20", ["sound"])
     from props.taste_parents import parent_tasks
@@ -122,3 +122,10 @@ def scenarios(tier, seed):
 def run_scenario(p, wd):
     from harness.rt_taste import run_agree_scenario
     return run_agree_scenario(p, wd)
+
+
+
+def tasks(tier):
+    # the FAB header parsers / formatter (real bodies on canonical header text): the obligations behind the header contracts
+    from props.parsers import parser_tasks
+    return _tasks0(tier) + parser_tasks("C20", nds=(2, 3))
